@@ -22,6 +22,7 @@ type ScopeWS struct {
 	ByRel      map[string]*SFile
 	GlobalDefs map[string][]GSite // free-name write sites per name, over all files
 	GlobalUses map[string][]GSite // every free-name occurrence per name
+	Loose      bool               // arbitrary files (repository testdata), not generator output
 }
 
 type GSite struct {
